@@ -485,7 +485,7 @@ def run(ctx):
                         'source t2incon lists its blocks in the geometry block order (sourceinc[0] is the atmosphere block for a type-0 source)',
                         "transfer_generators_from: incols (point-in-column search) and grid block volumes are inputs of the model, taken from the implementation"]
     ctx.stage()
-    ok = ctx.coq_build(props=('Props.v', 'Props2.v'), timeout=600)
+    ok = ctx.coq_build(props=('Props.v', 'Props2.v', 'Props3.v'), timeout=600)
     exe = vf.build_driver(ctx)
     n = 1200 if ctx.thorough else 150
     t0 = time.time()
